@@ -3,8 +3,8 @@ Local Open Scope Z_scope.
 
 Definition instant (t : ts) (tps : Z) : Z := secs t * tps + ticks t.
 Definition normalised (t : ts) (tps : Z) : Prop := 0 <= secs t /\ 0 <= ticks t < tps.
-(* the representable range of the property: rate in [1, 10^9], instant below 2^63, members are uint64 *)
-Definition rate_ok (tps : Z) : Prop := 1 <= tps <= 1000000000.
+(* the representable range of the property: rate in [1, 2^64), instant below 2^63, members are uint64 *)
+Definition rate_ok (tps : Z) : Prop := 1 <= tps < M64.
 Definition ts_ok (t : ts) (tps : Z) : Prop := 0 <= secs t /\ 0 <= ticks t /\ instant t tps < M63.
 
 Lemma to_i64_small z : 0 <= z < M63 -> to_i64 z = z.
